@@ -142,8 +142,9 @@ theorem directions_independent (W : Dir.World) (hE : Dir.Established (Dir.shared
 
 /-- **send_touches_send_side_only / recv_touches_recv_side_only**: the frame conditions behind
     `directions_independent` — on an established stream a send operation leaves the receive-side
-    fields and the shared fields (key, crypto mode, frozen digests, toggle flag) exactly as they
-    were, and computes the same result whatever the receive side holds; symmetrically for receive
+    fields and the shared fields (key, base IV `encIV`, crypto mode, frozen digests, toggle flag)
+    exactly as they were (`encIV` is read by both directions since fix D16 — the receiver refuses
+    a first frame announcing this endpoint's own IV — and written by neither), and computes the same result whatever the receive side holds; symmetrically for receive
     operations. -/
 theorem send_touches_send_side_only (s : Stream) (hE : Dir.Established (Dir.shared s)) (op : Dir.SendOp)
     (s1 : Stream) (fs : List WireFrame) (h : Dir.applySend s op = .ok (s1, fs)) :
@@ -164,7 +165,8 @@ theorem footprint_covers_code : Dir.footprintCovers CedarGen.FactsLock.streamMet
 
 /-- **footprints_disjoint**: in the declared footprints, whatever a send-role method may write
     and a receive-role method may touch (or the other way round) is a handshake-digest field or
-    the crypto-for-secret toggle, and is written under a guard only — the guards
+    the crypto-for-secret toggle, and is written under a guard only; the fields both directions
+    read (key, `encryptIV`, connection, crypto mode) are written by no traffic method — the guards
     (`final…Digest == nil`, `gcm != nil && !encrypted`, `secretCryptoOn`) are false on established
     streams, which is what `send_touches_send_side_only` / `recv_touches_recv_side_only` show
     semantically; observers (`IsEncrypted`, `GetPeerAddr`, …) read fields no traffic operation
